@@ -36,7 +36,7 @@ def run(pid, tier, replay):
             f.write(json.dumps(o) + "\n")
             runs.append(st)
     # many short races around 0 / the wrap in one process: the window of a non-atomic zero skip is a few instructions wide
-    rounds = 3000 if chk.quick else 60000
+    rounds = 4000 if chk.quick else 60000
     if not replay:
         rp_out = chk.path("rounds.ndjson")
         core.run_bin(bus, ["serial-rounds", rp_out, threads, 3, rounds], timeout=3000)
